@@ -32,18 +32,26 @@ else
   res_build=does-not-apply
 fi
 cd /verif
-git -C /repo worktree remove --force $wt 2>/dev/null; rm -rf $wt
-# run the check against /repo with the change
+# run the check against the change: by default in the scratch worktree through
+# VERIF_REPO (so /repo stays untouched and other checks can run meanwhile);
+# with APPLY_TO_REPO=1 the change is applied to /repo itself and reverted.
 caught=no; detail=""
 if [ "$res_build" = ok ]; then
-  git -C /repo apply "$diff" && {
-    ./check $prop "$@" > /tmp/mut/check-$id.log 2>&1; rc=$?
-    git -C /repo checkout -- . ; git -C /repo clean -fdq -e bin 2>/dev/null
-    if grep -q "^VIOLATION property=$prop" /tmp/mut/check-$id.log; then caught=yes; detail=$(grep -A2 "^VIOLATION" /tmp/mut/check-$id.log | sed -n '2,3p' | tr '\n' ' ' | cut -c1-400); fi
-    [ $rc -eq 2 ] && detail="check exit 2: $(tail -3 /tmp/mut/check-$id.log | tr '\n' ' ' | cut -c1-300)"
-  }
+  if [ -n "${APPLY_TO_REPO:-}" ]; then
+    git -C /repo apply "$diff" && {
+      ./check $prop "$@" > /tmp/mut/check-$id.log 2>&1; rc=$?
+      git -C /repo checkout -- . ; git -C /repo clean -fdq -e bin 2>/dev/null
+    }
+  else
+    (cd $wt && git checkout -q -- . && git clean -fdq && git apply "$diff")
+    VERIF_REPO=$wt VERIF_OUT=/tmp/mut/evalout-$id ./check $prop "$@" > /tmp/mut/check-$id.log 2>&1; rc=$?
+    rm -rf /tmp/mut/evalout-$id
+  fi
+  if grep -q "^VIOLATION property=$prop" /tmp/mut/check-$id.log; then caught=yes; detail=$(grep -A2 "^VIOLATION" /tmp/mut/check-$id.log | sed -n '2,3p' | tr '\n' ' ' | cut -c1-400); fi
+  [ $rc -eq 2 ] && detail="check exit 2: $(tail -3 /tmp/mut/check-$id.log | tr '\n' ' ' | cut -c1-300)"
 fi
-rm -f /verif/replays/$prop-*.json
+git -C /repo worktree remove --force $wt 2>/dev/null; rm -rf $wt
+[ -n "${APPLY_TO_REPO:-}" ] && rm -f /verif/replays/$prop-*.json
 mkdir -p seeded/$id
 cp "$diff" seeded/$id/patch.diff
 [ -n "$demo" ] && cp "$demo" seeded/$id/
